@@ -8,6 +8,7 @@ import tarfile
 
 from hypothesis import strategies as st
 
+from hv.core import track as core_track
 from hv.core import Outcome, lib
 from hv.sparse import pattern
 
@@ -181,7 +182,7 @@ def check(spec) -> Outcome:
         out.cls("long-names")
 
     def run():
-        t = vmtar.open(fileobj=io.BytesIO(blob))
+        t = vmtar.open(fileobj=core_track(blob))
         try:
             return read_all(t)
         finally:
